@@ -13,12 +13,12 @@ import (
 
 // apiEntry is one element of "data" in the API answer.
 type apiEntry struct {
-	Answer     []ans   `json:"answer"`
-	Orig       []ans   `json:"original_answer"`
-	DNSSEC     *bool   `json:"answer_dnssec"`
-	Cached     bool    `json:"cached"`
-	Client     string  `json:"client"`
-	ClientID   string  `json:"client_id"`
+	Answer     []ans  `json:"answer"`
+	Orig       []ans  `json:"original_answer"`
+	DNSSEC     *bool  `json:"answer_dnssec"`
+	Cached     bool   `json:"cached"`
+	Client     string `json:"client"`
+	ClientID   string `json:"client_id"`
 	ClientInfo *struct {
 		Name string `json:"name"`
 	} `json:"client_info"`
